@@ -1,5 +1,5 @@
 //! Correspondence of the translated code's vocabulary (lean/SyModel/Generated/Prelude.lean) with the real std functions:
-//! `Path::{parent, file_name, file_stem, extension, join, strip_prefix}`, `str::{to_lowercase, eq_ignore_ascii_case, rsplit}`,
+//! `Path::{parent, file_name, file_stem, extension, join, with_file_name, strip_prefix}`, the crate's own `temp_file::working_file_path` against its TRANSLATION (unit TempFile), `str::{to_lowercase, eq_ignore_ascii_case, rsplit}`,
 //! `SystemTime::duration_since`, `Duration::as_secs`, `format!("{}", n)`.  Inputs inside the documented domain of the
 //! Prelude (clean relative path texts: no empty, `.` or `..` component, no leading or trailing `/`; ASCII) must agree;
 //! inputs outside it are run as well and only counted (tags `outside.*`), so that the evidence shows where the domain ends.
@@ -56,6 +56,10 @@ pub fn run(tier: &str, seed: u64, driver_path: &str) -> Report {
         // `join` of a root (possibly absolute, never with a trailing '/') and a relative name
         let rootdom = p.is_empty() || p.trim_start_matches('/').split('/').all(|c| !c.is_empty() && c != "." && c != "..") && !p.ends_with('/') && !p.starts_with("//");
         check(&mut rep, &mut drv, "join", format!("prelude.join {} {}", h, hex(nm.as_bytes())), hex(pp.join(&nm).to_string_lossy().as_bytes()), rootdom && nm_ok);
+        // `with_file_name` (vocabulary of unit TempFile) and the TRANSLATED `working_file_path` itself against the real function of the
+        // crate: inside the domain of `Props/GenTempFile.ProperName` (a clean text; an absolute clean text is counted as outside)
+        check(&mut rep, &mut drv, "with_file_name", format!("prelude.with_file_name {} {}", h, hex(nm.as_bytes())), hex(pp.with_file_name(&nm).to_string_lossy().as_bytes()), dom && nm_ok);
+        check(&mut rep, &mut drv, "working_file_path", format!("prelude.working_file_path {}", h), hex(sy::temp_file::working_file_path(pp).to_string_lossy().as_bytes()), dom);
         // strip_prefix: base = a prefix of the components, or another path
         let base: String = if rng.chance(2, 3) { let cs: Vec<&str> = p.split('/').collect(); cs[..rng.below(cs.len() as u64 + 1) as usize].join("/") } else { path_text(&mut rng) };
         let real = match pp.strip_prefix(Path::new(&base)) { Ok(r) => format!("ok:{}", hex(r.to_string_lossy().as_bytes())), Err(_) => "err".into() };
